@@ -694,6 +694,7 @@ static double g_rate = 500; // executions per second, re-measured continuously
 static double g_cap;        // wall seconds this tier may use in total
 static double g_t0left;
 static char   g_depths[400];
+static int    g_replay; // --replay: offer every candidate scenario name
 
 static double
 powd(double b, int e)
@@ -719,11 +720,7 @@ explore_seq(const char *name, seqarg *a, int dmax, int dmin, double share)
 		d--;
 	if (powd(a->nletters, d) / g_rate > g_cap - used() && d > dmin)
 		d = dmin;
-	a->depth = d;
 	char nm[64];
-	snprintf(nm, sizeof(nm), "%s-d%d", name, d);
-	snprintf(g_depths + strlen(g_depths), sizeof(g_depths) - strlen(g_depths),
-	    "%s%s", g_depths[0] ? " " : "", nm);
 	vx_cfg c;
 	memset(&c, 0, sizeof(c));
 	c.prop     = "C06";
@@ -732,6 +729,18 @@ explore_seq(const char *name, seqarg *a, int dmax, int dmin, double share)
 	c.arg      = a;
 	c.budget[VB_ENV] = -1;
 	c.total          = 0;
+	if (g_replay) { // the replay file names the depth
+		for (d = dmin; d <= dmax; d++) {
+			a->depth = d;
+			snprintf(nm, sizeof(nm), "%s-d%d", name, d);
+			vx_explore(&c, NULL);
+		}
+		return;
+	}
+	a->depth = d;
+	snprintf(nm, sizeof(nm), "%s-d%d", name, d);
+	snprintf(g_depths + strlen(g_depths), sizeof(g_depths) - strlen(g_depths),
+	    "%s%s", g_depths[0] ? " " : "", nm);
 	vx_stats st;
 	memset(&st, 0, sizeof(st));
 	vx_explore(&c, &st);
@@ -766,8 +775,11 @@ main(int argc, char **argv)
 {
 	vx_init(argc, argv, "C06");
 	int T = vx_is_thorough();
+	for (int i = 1; i < argc; i++)
+		if (!strcmp(argv[i], "--replay"))
+			g_replay = 1;
 	g_t0left = vx_time_left();
-	g_cap    = T ? 1000 : 60;
+	g_cap    = T ? 1000 : 50;
 	if (g_cap > g_t0left - 60)
 		g_cap = g_t0left - 60;
 
@@ -799,9 +811,7 @@ main(int argc, char **argv)
 		explore_seq("raw", &s_raw, 3, 3, 1);
 		explore_seq("raw-tinybuf-full0", &s_rawf, 3, 3, 1);
 		explore_seq("raw-tinybuf-waiters", &s_raww, 3, 3, 1);
-		explore_seq("inproc-late", &s_late, 4, 4, 1);
-		explore_seq("inproc", &s_init, 4, 4, 1);
-		explore_seq("inproc-core", &s_core, 5, 5, 1);
+		explore_seq("inproc-late", &s_late, 4, 3, 0.1);
 	} else {
 		explore_seq("inproc-full0", &s_full0, 5, 4, 0.06);
 		explore_seq("inproc-full2", &s_full2, 5, 4, 0.06);
@@ -817,11 +827,21 @@ main(int argc, char **argv)
 	// m0 p1/t2 1.5 k, p2/t3 37 k; m1 p1/t1 0.2 k, p1/t2 10-14 k; m2 p1/t2 15 k
 	static racearg RC[] = { { 0, 0, 1 }, { 1, 0, 1 }, { 0, 1, 1 }, { 1, 1, 1 },
 		{ 0, 2, 1 }, { 1, 0, 2 } };
-	if (!T) {
+	if (g_replay) {
+		for (int i = 0; i < 6; i++) {
+			explore_race(&RC[i], 2, 3);
+			explore_race(&RC[i], 2, 2);
+			explore_race(&RC[i], 1, 2);
+			explore_race(&RC[i], 1, 1);
+		}
+	} else if (!T) {
 		explore_race(&RC[0], 1, 2);
 		explore_race(&RC[1], 1, 2);
 		explore_race(&RC[2], 1, 1);
 		explore_race(&RC[3], 1, 1);
+		// quick depths 4 / 5 on an idle machine, one less under heavy load
+		explore_seq("inproc", &s_init, 4, 3, 0.25);
+		explore_seq("inproc-core", &s_core, 5, 4, 0.35);
 	} else {
 		double rr = g_rate * 0.7; // schedule runs are a little slower
 		for (int i = 0; i < 6; i++) {
